@@ -285,6 +285,8 @@ def check_pair(chk, ev, info, singles):
     tags = ["pos:merge"] + [f"cls:{i.get('cls')}" for i in infs] + [f"form:{i.get('form')}" for i in infs]
     if any(i.get("form") == "block-blank" for i in infs):
         tags.append("blank-line-in-doc")
+    if any(i.get("field_cls") == "mentions-sibling" for i in infs):
+        tags.append("field-doc-mentions-sibling")
     for run in ev["runs"]:
         chk.add_eval()
         p = run["parsed"]
